@@ -137,7 +137,7 @@ Proof. exact rejected_poll_changes_nothing. Qed.
 
 Theorem C06_registered_only_if_superset : forall cfg v s sd n pt cl pat s',
   gstep cfg v s (G_ProxyPoll sd n pt cl pat) = Some (s', Some Registered) ->
-  broker_accepts_poll cfg pat = true /\ length (entries s') = S (length (entries s)).
+  broker_accepts_poll cfg pat = true /\ List.length (entries s') = S (List.length (entries s)).
 Proof. exact registered_only_if_superset. Qed.
 
 Theorem C06_gated_machine_refines_broker : forall cfg v s g s' r,
